@@ -193,6 +193,7 @@ func (i *info) AvailabilityChan() <-chan struct{} {
 // returned by AvailabilityChan. If this region was marked as available
 // before this, true will be returned.
 func (i *info) MarkUnavailable() bool {
+	vhook("info.markUnavailable", i, nil)
 	created := false
 	i.m.Lock()
 	if i.available == nil {
